@@ -18,7 +18,7 @@ package fasthttp
 // writeBodyFixedSize: a body stream declared with `size` bytes never puts more than `size` bytes on the wire, and a
 // stream of a different length is reported as an error (the caller then closes the connection).
 //@ func writeBodyFixedSize results err
-//@   property C03 C34
+//@   property C03
 //@   mode skeleton
 //@   ghost wrote int = 0
 //@   on call copyBodyStream(ww, rr) -> n, e:
